@@ -857,12 +857,34 @@ func main() {
 	sb.WriteString("Definition gen_funs : funtab := [\n")
 	first := true
 	var pairs []string
+	var mutexPairs []string
+	methodNames := map[string]bool{}
 	for _, dir := range []string{".", "driver"} {
 		tag := "func"
 		if dir != "." {
 			tag = "func." + dir
 		}
 		p := load(filepath.Join(repo, dir), tag)
+		for m := range p.byName {
+			methodNames[m] = true
+		}
+		for _, it := range p.interfaces {
+			for _, m := range it.Methods.List {
+				for _, mn := range m.Names {
+					methodNames[mn.Name] = true
+				}
+			}
+		}
+		perStruct := map[string][]string{}
+		for mf := range p.mutexField {
+			st := mf[:strings.Index(mf, ".")]
+			perStruct[st] = append(perStruct[st], mf)
+		}
+		for st, ms := range perStruct {
+			if len(ms) == 1 {
+				mutexPairs = append(mutexPairs, "("+q(st)+", "+q(ms[0])+")")
+			}
+		}
 		var fnames []string
 		for n := range p.funcs {
 			fnames = append(fnames, n)
@@ -930,6 +952,21 @@ func main() {
 		}
 	}
 	sb.WriteString("\n].\n\n")
+	// structs with exactly one mutex field: that mutex is what guards the struct's mutable fields
+	sb.WriteString("Definition gen_mutexes : list (string * string) := [")
+	sort.Strings(mutexPairs)
+	sb.WriteString(strings.Join(mutexPairs, "; "))
+	sb.WriteString("].\n\n")
+	// method names defined by the packages' own types and interfaces: a call of such a method
+	// on a field must be resolved by the policy; any other method belongs to another package
+	sb.WriteString("Definition gen_methods : list string := [")
+	var ms []string
+	for m := range methodNames {
+		ms = append(ms, q(m))
+	}
+	sort.Strings(ms)
+	sb.WriteString(strings.Join(ms, "; "))
+	sb.WriteString("].\n\n")
 	sb.WriteString("Definition gen_entry (n : string) : stmt :=\n  match lookup_fun gen_funs n with Some s => s | None => Unsupported (\"missing function \" ++ n) end.\n\n")
 	sort.Strings(pairs)
 	sb.WriteString("(* accesses and calls that occur (for writing the policy):\n")
